@@ -1,12 +1,13 @@
 #!/bin/bash
 # Build the framework from files on disk only (offline): the verification build of /repo's C++
-# core, every correspondence driver, and the Lean library.
+# core, the correspondence drivers of every claimed check, and the Lean library.
 set -e
 cd "$(dirname "$0")"
 export HHENSON_HGRAPH_VERIF=${HHENSON_HGRAPH_VERIF:-1}
 /venv/bin/python tools/gen_build.py
 /venv/bin/python tools/extract.py
-make -C .build -j16 -k all 2>&1 | grep -v '^CXX\|^make' | tail -20 || true
-make -C .build -j16 all > /dev/null
-(cd lean && lake build 2>&1 | tail -3)
+TARGETS=$(/venv/bin/python tools/claimed_targets.py)
+make -C .build -j16 -k $TARGETS 2>&1 | grep -v '^CXX\|^make' | tail -20 || true
+make -C .build -j16 $TARGETS > /dev/null
+(cd lean && lake build $(/venv/bin/python ../tools/claimed_targets.py lean) HgVerif.Driver.Proto 2>&1 | tail -3)
 echo "setup done"
